@@ -302,3 +302,34 @@ T("C05", "twin-client-memoryview-len-test", "c2.py", _CLIENT, _CLIENT_VIEW_LEN.f
   edits=[_IMPORT, ("c2.py", _CLIENT, _CLIENT_VIEW_LEN.format(src="view", adv="4 + size", test=">= 4 + 16 + 16"))])
 M("C05", "client-memoryview-len-above-min", "c2.py", _CLIENT, _CLIENT_VIEW_LEN.format(src="view", adv="4 + size", test="> 4 + 16 + 16"), "C05.R7",
   edits=[_IMPORT, ("c2.py", _CLIENT, _CLIENT_VIEW_LEN.format(src="view", adv="4 + size", test="> 4 + 16 + 16"))])
+
+# ================================================================================================ R9: packet bytes are the framed bytes
+# ciphertext and signature are binary: between `output` and the EncryptedPacket fields the bytes may only be selected by
+# position (slices, stream reads) or copied / viewed; a step whose result depends on the byte values (strip family,
+# replace, split ...) moves or rewrites the frame for some streams.  Seeded kind: rstrip(b"\r\n") on the task blob.
+_SERVER_SRC = (
+    "        data = {src}\n        if not data:\n            return\n        fobj = io.BytesIO({wrap})\n"
+    "        ciphertext = fobj.read(len(data) - 16)\n        signature = fobj.read(16)\n        yield EncryptedPacket(ciphertext, signature)\n"
+)
+T("C05", "twin-server-or-empty-copy", "c2.py", _SERVER, _SERVER_SRC.format(src="bytes(self.output or b\"\")", wrap="data"))
+T("C05", "twin-server-conditional-default", "c2.py", _SERVER,
+  "        raw = self.output\n" + _SERVER_SRC.format(src="raw if raw is not None else b\"\"", wrap="memoryview(data)"))
+T("C05", "twin-server-strip-nothing", "c2.py", _SERVER, _SERVER_SRC.format(src="(self.output or b\"\").rstrip(b\"\")", wrap="data"))
+M("C05", "server-trailing-nul-trimmed", "c2.py", _SERVER, _SERVER_SRC.format(src="bytes(self.output or b\"\").rstrip(b\"\\x00\")", wrap="data"), "C05.R9")
+M("C05", "server-crlf-normalised-stream", "c2.py", _SERVER, _SERVER_SRC.format(src="self.output", wrap="data.replace(b\"\\r\\n\", b\"\\n\")"), "C05.R9")
+M("C05", "server-slices-signature-stripped", "c2.py", _SERVER,
+  "        data = self.output\n        if not data:\n            return\n        yield EncryptedPacket(data[:-16], data[-16:].strip())\n", "C05.R9")
+M("C05", "server-slices-first-line-only", "c2.py", _SERVER,
+  "        data = self.output\n        if not data:\n            return\n        body = data.partition(b\"\\r\\n\\r\\n\")[0]\n"
+  "        yield EncryptedPacket(body[:-16], body[-16:])\n", "C05.R9")
+M("C05", "client-stream-leading-whitespace-stripped", "c2.py", _CLIENT,
+  _CLIENT.replace("        data = self.output\n", "        data = (self.output or b\"\").lstrip()\n"), "C05.R9")
+M("C05", "client-remainder-stripped-each-round", "c2.py", _CLIENT,
+  _CLIENT.replace("            data = fobj.read()\n", "            data = fobj.read().strip(b\"\\r\\n\")\n"), "C05.R9")
+_walk("twin-client-offset-walk-bytes-copy", test="offset < len(data)", hdr="bytes(data[offset : offset + 4])")
+M("C05", "client-offset-walk-buffer-stripped", "c2.py", _CLIENT,
+  _CLIENT_WALK.format(start="0", test="len(data) - offset >= min_frame", hdr="data[offset : offset + 4]", cut="").replace(
+      "        data = self.output or b\"\"\n", "        data = (self.output or b\"\").rstrip()\n"), "C05.R9",
+  edits=[_IMPORT, ("c2.py", _CLIENT,
+                   _CLIENT_WALK.format(start="0", test="len(data) - offset >= min_frame", hdr="data[offset : offset + 4]", cut="").replace(
+                       "        data = self.output or b\"\"\n", "        data = (self.output or b\"\").rstrip()\n"))])
